@@ -1,7 +1,9 @@
 """Binding of specs/Sections.tla: concretise files, replay behaviours on the real Source tool, TIFA and sandbox."""
 import re
 
-PATTERNS = {"default": (None, "##### Part %d"), "custom": (r"^(# SECTION .+)$", "# SECTION %d")}
+PATTERNS = {"default": (None, "##### Part %d"), "custom": (r"^(# SECTION .+)$", "# SECTION %d"),
+            # the same marker written without a capture group: the marker lines are separators all the same
+            "nogroup": (r"^# SECTION .+$", "# SECTION %d")}
 
 
 def concretise(chars, pattern="default", variant="A"):
